@@ -58,7 +58,7 @@ received or as rewritten by label / add-header.  (A rule set without a move - la
 exec / reject only - rewrites or pipes the spool copy, which the cleanup then removes: status 0 or 1,
 nothing stored; so does a discard, and `-d`.  These are the cases the hypotheses exclude.)
 
-Audit au1, two remarks on `Proofs.Delivered`: (1) the name `name0` of the spool file is EXISTENTIAL (`∃ name0 fl, (∃ k, name0 =
+Audit au1, remarks on `Proofs.Delivered`: (1) the name `name0` of the spool file is EXISTENTIAL (`∃ name0 fl, (∃ k, name0 =
 gennameName env none k) ∧ ...`), not the name the run used: should the verdict differ between counter values `k` (it depends on the name only
 through the message path handed to the evaluator - no theorem says it does not), the `k` for which nothing matches makes
 `Delivered` hold whatever the run did.  (2) The escape "no move in the list" is not an academic one: on the real binary
@@ -68,7 +68,13 @@ unmatched messages only.  (3) The stored copy is "some entry of a directory othe
 a byte-identical file that was already there satisfies it.
 
 Hypotheses: `-` was given, not `-n`, exactly one `stdin` block (any number
-of `maildir` blocks), descriptor 0 holds `input`, `mkdtemp` returns a fresh directory. -/
+of `maildir` blocks), descriptor 0 holds `input`, `mkdtemp` returns a fresh directory.
+
+The rules are evaluated inside the run: `command`, `isdirectory` and file-time `date` conditions ask the operating system
+(`Model.evalP`), and faults may hit those calls too.  `Proofs.Delivered` therefore speaks about the verdict
+`Proofs.World.stdinVerdictA … as` for SOME answers `as` (the answers of this run); for a rule tree without such conditions the
+answers are irrelevant and the verdict is the pure `stdinVerdict` (`C02_stdin_exit0_pure`); `C02_stdin_exit0_stored` is the
+consequence that does not mention the answers. -/
 theorem C02_stdin_exit0 (env : PEnv) (orc : EvalOracles) (conf : List ConfBlock) (files : Files) (input : Bytes) (expr : Expr)
     (w : World) (plan : Plan) (hm : env.stdinMode = true) (hs : env.syntaxOnly = false)
     (hc : Proofs.World.stdinExprs conf = [expr]) (hin : Proofs.World.StdinIs w input)
@@ -76,6 +82,44 @@ theorem C02_stdin_exit0 (env : PEnv) (orc : EvalOracles) (conf : List ConfBlock)
     let r := runPlan plan (mainP env orc true conf files input) w 0 []
     r.1.1 = 0 → Proofs.Delivered env orc expr input r.2.1 :=
   Proofs.stdin_exit0 env orc conf files input expr w plan hm hs hc hin hfresh
+
+/-- **Exit status 0 means stored**, without mentioning the answers: if - WHATEVER the operating system answers to the
+questions of evaluation - the rules either fail or deliver (`Proofs.DeliversV`: an action list without discard, with a
+move/flag/flags action, no destination the spool; e.g. `stdin { match command "c" move "A"  match all move "B" }`), then
+under every fault plan exit status 0 of a real run implies that some entry of a directory other than the spool is bound to a
+file whose DURABLE content is the message as received or as rewritten by the label / add-header actions of one of these
+verdicts. -/
+theorem C02_stdin_exit0_stored (env : PEnv) (orc : EvalOracles) (conf : List ConfBlock) (files : Files) (input : Bytes) (expr : Expr)
+    (w : World) (plan : Plan) (hm : env.stdinMode = true) (hs : env.syntaxOnly = false) (hdry : env.dryrun = false)
+    (hc : Proofs.World.stdinExprs conf = [expr]) (hin : Proofs.World.StdinIs w input)
+    (hfresh : Proofs.World.SpoolFresh env w)
+    (hall : ∀ name0 fl as, flagsParse name0 = some fl →
+      Proofs.World.stdinVerdictA env orc expr input (Proofs.World.spoolPath env ++ [47] ++ name0) fl as = .failed ∨
+      Proofs.DeliversV env (Proofs.World.stdinVerdictA env orc expr input (Proofs.World.spoolPath env ++ [47] ++ name0) fl as))
+    (h0 : (runPlan plan (mainP env orc true conf files input) w 0 []).1.1 = 0) :
+    ∃ d n fid f, d ≠ Proofs.World.spoolPath env ∧
+      (runPlan plan (mainP env orc true conf files input) w 0 []).2.1.lookup d n = some fid ∧
+      (runPlan plan (mainP env orc true conf files input) w 0 []).2.1.file fid = some f ∧
+      (f.durable = input ∨ ∃ name0 fl as ml m',
+        Proofs.World.stdinVerdictA env orc expr input (Proofs.World.spoolPath env ++ [47] ++ name0) fl as = .actions ml m' ∧
+        f.durable = (messageWrite m').1) :=
+  Proofs.delivered_copy hdry hall (C02_stdin_exit0 env orc conf files input expr w plan hm hs hc hin hfresh h0)
+
+/-- For a rule tree that asks the operating system nothing the verdict in `Delivered` is the verdict of the pure evaluator. -/
+theorem C02_stdin_exit0_pure (env : PEnv) (orc : EvalOracles) (expr : Expr) (hfree : Proofs.asksFree expr = true)
+    (input path : Bytes) (fl : MFlags) (as : List SysAns) :
+    Proofs.World.stdinVerdictA env orc expr input path fl as = Proofs.World.stdinVerdict env orc expr input path fl :=
+  Proofs.World.stdinVerdictA_asksFree env orc expr hfree input path fl as
+
+example : Proofs.asksFree Proofs.StdinExample.expr0 = true := by decide
+
+/-- Non-vacuity of the hypothesis `hall` of `C02_stdin_exit0_stored` on the example, for the name the spool file gets: whatever
+the answers are, the verdict delivers (Boolean form `deliversB` of `Proofs.DeliversV`). -/
+example (as : List SysAns) : Proofs.StdinExample.deliversB (Proofs.World.spoolPath Proofs.StdinExample.env0)
+    (Proofs.World.stdinVerdictA Proofs.StdinExample.env0 Proofs.StdinExample.orc0 Proofs.StdinExample.expr0
+      Proofs.StdinExample.input0 Proofs.StdinExample.path0 MFlags.empty as) = true := by
+  rw [Proofs.World.stdinVerdictA_asksFree _ _ _ (by decide)]
+  exact Proofs.StdinExample.ex_delivers
 
 /-! Non-vacuity: the hypotheses hold for a 10-byte message, TMPDIR `/tmp` and the configuration
 `stdin { match all move "/m/inbox" }` (Proofs/WorldStdinExample); for the name the spool file gets
@@ -98,7 +142,8 @@ example : (runPlan Plan.none (mainP Proofs.StdinExample.env0 Proofs.StdinExample
   rw [(Proofs.dry_runNone_eq _ _ 0 []).1, Proofs.Own.mainP_eq]
   unfold Proofs.Own.mainK
   simp only [Proofs.StdinExample.conf0, Proofs.Own.blocks_cons, Proofs.Own.blocks_nil, Proofs.Own.paths_cons,
-    Proofs.Own.paths_nil, Proofs.dry_walk_G, Proofs.StdinExample.expr0, eval]
+    Proofs.Own.paths_nil, Proofs.dry_walk_G _ _ Proofs.StdinExample.expr0 (by decide)]
+  simp only [Proofs.StdinExample.expr0, eval]
   decide +kernel
 
 example : Proofs.StdinExample.deliversB (Proofs.World.spoolPath Proofs.StdinExample.env0)
@@ -116,7 +161,8 @@ A process killed before call k of `mainP` leaves the world after call k-1; a pow
 durable contents.  Both are covered by a statement about the world after EVERY call. -/
 
 /-- One message: after every call of `processMessage`, under every fault plan, some entry is bound to
-a file whose content ON STABLE STORAGE is the message or its complete rewrite. -/
+a file whose content ON STABLE STORAGE is the message or its complete rewrite (for some answers `as` of the operating
+system to the questions of evaluation: `command`, `isdirectory` and file-time `date` conditions are part of the run). -/
 theorem C02_message_power_failure (env : PEnv) (orc : EvalOracles) (expr : Expr) (md : Maildir) (name : Bytes) (st : MainSt)
     (w : World) (plan : Plan) (d : Handle) (content : Bytes) (fid : Nat)
     (hd : md.dirH = some d) (hp : w.dirPath d = some md.path)
@@ -125,8 +171,9 @@ theorem C02_message_power_failure (env : PEnv) (orc : EvalOracles) (expr : Expr)
     (hl : w.lookup md.path name = some fid) (hlt : fid < w.nextFid) (hf : w.file fid = some ⟨content, content⟩)
     (hnd : Proofs.WholeNoDiscard env orc expr) :
     ∀ w' ∈ (runPlan plan (processMessage env orc expr md name st) w 0 []).2.2,
-      Proofs.IntactDurable w' [content, Proofs.wholeRewrite env orc expr md.path name content] := fun w' hw' =>
-  (Proofs.whole_message_no_loss env orc expr md name st w plan hd hp hwf hfc hl hlt hf hnd w' hw').2.1
+      ∃ as, Proofs.IntactDurable w' [content, Proofs.wholeRewrite env orc expr md.path name content as] := fun w' hw' => by
+  obtain ⟨⟨as, _, h⟩, _⟩ := Proofs.whole_message_no_loss env orc expr md name st w plan hd hp hwf hfc hl hlt hf hnd w' hw'
+  exact ⟨as, h⟩
 
 /-- One maildir: after every call of `walk`, under every fault plan, every registered message has an
 entry bound to a file whose visible content AND whose content on stable storage are complete versions of it. -/
